@@ -2,9 +2,29 @@ package main
 
 import (
 	"fmt"
+	"go/types"
 	"strconv"
 	"strings"
 )
+
+// hasFieldDeep: u has a field named name, directly or through embedded structs.
+func hasFieldDeep(u *types.Struct, name string, depth int) bool {
+	if depth > 8 {
+		return false
+	}
+	for i := 0; i < u.NumFields(); i++ {
+		f := u.Field(i)
+		if f.Name() == name {
+			return true
+		}
+		if f.Embedded() {
+			if es, ok := f.Type().Underlying().(*types.Struct); ok && hasFieldDeep(es, name, depth+1) {
+				return true
+			}
+		}
+	}
+	return false
+}
 
 // hoistExistsFacts: state the facts recorded under an existential binder as a universal assertion
 // (off: they are dropped, see specQuant).
